@@ -47,9 +47,13 @@ def decodeNode (a : Bytes) : Option (Bytes × Node) :=
     | [] => none
   | [] => none
 
+/-- protocol: the content `01 44` stands for "this entry is a directory" — it exists, but
+    `read_to_string` on it fails -/
+def isDirMarker (c : Bytes) : Bool := c == [1, 68]
+
 def showRead (o : Option Bytes) : String :=
   match o with
-  | some c => if (utf8 c).2 == .complete then "+" ++ hexEncode c else "err"
+  | some c => if isDirMarker c then "err" else if (utf8 c).2 == .complete then "+" ++ hexEncode c else "err"
   | none => "err"
 
 def showItem (o : Option Package) : String :=
@@ -175,7 +179,7 @@ def oracleC20 (op : String) (args : List Bytes) (impl : String) : String × Stri
             | some p =>
               let (base, ver) := match S.splitLastDash p with | some bv => bv | none => (p, [])
               let rd (f : String) : String := match fs.find? (·.1 == f) with
-                | some (_, c) => if (utf8 c).2 == .complete then "+" ++ hexEncode c else "err"
+                | some (_, c) => if isDirMarker c then "err" else if (utf8 c).2 == .complete then "+" ++ hexEncode c else "err"
                 | none => "err"
               some s!"ok:{hexS p}:{hexS base}:{hexS ver}:{rd "+COMMENT"}:{rd "+SIZE_PKG"}"
           else none
